@@ -14,17 +14,20 @@ Two == { Sc(p, mx, pre, c) : p \in {<<1, 1>>, <<1, 2>>}, mx \in {1, 2, 3}, pre \
 TwoValid == { s \in Two : s.pre < s.max }
 \* two relays on an evidence whose slice has spare capacity (3 proofs in a 4-slot array)
 TwoAliased == { Sc(p, 6, 3, c) : p \in {<<1, 1>>, <<1, 2>>}, c \in {0, 1, 2} }
+\* ... where the slice gets full exactly when the limit is reached (the limit seals the very
+\* object whose backing array the stale copies still share)
+TwoAliased4 == { Sc(p, 4, 3, c) : p \in {<<1, 1>>, <<1, 2>>}, c \in {0, 1} }
 \* three relays
 Three(c) == { Sc(p, 2, 0, c) : p \in {<<1, 1, 1>>, <<1, 1, 2>>, <<1, 2, 3>>} }
 ThreeMore(c) == { Sc(p, mx, pre, c) : p \in {<<1, 1, 2>>, <<1, 2, 3>>}, mx \in {3, 6}, pre \in {0, 3} } \ {Sc(<<1, 1, 2>>, 3, 3, c), Sc(<<1, 2, 3>>, 3, 3, c)}
 
 \* quick tier
-ScPathsQuick    == { s \in TwoValid : s.max <= 2 } \cup { s \in TwoAliased : s.claims <= 1 }
-ScCoverQuick    == { Sc(<<1, 1, 2>>, 2, 0, 1) }
+ScPathsQuick    == { s \in TwoValid : s.max <= 2 } \cup { s \in TwoAliased : s.claims <= 1 } \cup TwoAliased4
+ScCoverQuick    == { Sc(<<1, 1, 2>>, 2, 0, 1), Sc(<<1, 2, 3>>, 4, 3, 0) }
 \* thorough tier: the quick sets plus
 ScPathsMore     == (TwoValid \cup TwoAliased) \ ScPathsQuick
 ScCoverMore     == Three(1) \ ScCoverQuick
-ScPathsThorough == Three(0) \cup { Sc(<<1, 1, 2>>, 3, 0, 0), Sc(<<1, 2, 3>>, 6, 3, 0) }
+ScPathsThorough == Three(0) \cup { Sc(<<1, 1, 2>>, 3, 0, 0), Sc(<<1, 2, 3>>, 4, 3, 0) }
 ScCoverThorough == Three(2) \cup ThreeMore(1)
 ScSmoke         == {Sc(<<1, 1>>, 2, 0, 1), Sc(<<1, 2>>, 2, 0, 1)}
 ScAsStated      == ScSmoke \cup {Sc(<<1, 2>>, 1, 0, 1)}
